@@ -221,12 +221,41 @@ theorem C08_alias_resolution_observation :
 /-! ### History independence (state kept in Compiler.packages) -/
 
 /-- FULL (for the code as it is, since 1e863b8): a compilation's output does
-not depend on what earlier compilations left in the `Compiler` —
-`compile`/`CompileSSA`/`Stream` begin with `c.resetPackages()` (required by
-the `codegen_entries` fact). -/
+not depend on what earlier uses of the `Compiler` left behind, whatever they
+were — successful compilations AND compilations that failed half-way (`Event`).
+What makes this true is that `compile` / `CompileSSA` / `Stream` call
+`c.resetPackages()` as their FIRST statement, before anything of `c.packages`
+is read (required by the `codegen_entries` fact: reset before the first
+`c.parse`): the proof is `rfl` because `compile` does not look at its cache
+argument.  A reset placed later (e.g. after successful code generation) does
+not give this theorem: `C08_reset_at_start_needed`. -/
 theorem C08_history_independent {ν : Type} [DecidableEq ν] (le : ν → ν → Bool)
-    (lib : List (Pkg ν)) (c₁ c₂ : Cache ν) (prog : Prog ν) :
-    (compile le lib c₁ prog).1 = (compile le lib c₂ prog).1 := rfl
+    (lib : List (Pkg ν)) (c₀ : Cache ν) (history : List (Event ν)) (prog : Prog ν) :
+    (compile le lib (runHistory le lib c₀ history) prog).1 = (compile le lib Cache.empty prog).1 := rfl
+
+-- non-vacuity: a failing compilation (stopped after 1 function instance) followed by a good one
+example : (compile (fun a b : Nat => decide (a ≤ b)) [⟨1, [], 1, 0⟩]
+      (runHistory (fun a b : Nat => decide (a ≤ b)) [⟨1, [], 1, 0⟩] Cache.empty
+        [.failing ⟨⟨0, [1], 0, 0⟩, [0], [0, 5]⟩ 2]) ⟨⟨0, [1], 0, 0⟩, [0], [0, 5]⟩).1
+    = ⟨[(1, none)], [(0, 0), (5, 0)]⟩ := by decide
+
+/-- The reset must be at the START.  Hypothetical variant `compileResetOnSuccess`
+(table dropped only after successful code generation): after a FAILING
+compilation of a program importing package 1 the next, good compilation of the
+same imports misses the package initialiser block and numbers the function
+instance `5#1` — while after a successful compilation everything is as on a
+fresh instance.  (Replayed on the real compiler by the failing-history oracle
+of harness/cmd/c08/failhist.go.) -/
+theorem C08_reset_at_start_needed :
+    ∃ (lib : List (Pkg Nat)) (prog : Prog Nat),
+      let le := fun a b : Nat => decide (a ≤ b)
+      -- after a success: as fresh
+      (compileResetOnSuccess le lib (stepResetOnSuccess le lib Cache.empty (.good prog)) prog).1
+        = (compileResetOnSuccess le lib Cache.empty prog).1 ∧
+      -- after a failure: different
+      (compileResetOnSuccess le lib (stepResetOnSuccess le lib Cache.empty (.failing prog 2)) prog).1
+        ≠ (compileResetOnSuccess le lib Cache.empty prog).1 :=
+  ⟨[⟨1, [], 1, 0⟩], ⟨⟨0, [1], 0, 0⟩, [0], [0, 5]⟩, by decide, by decide⟩
 
 /-- … hence k compilations on one `Compiler` all give the output of the first. -/
 theorem C08_repeated_compilations_equal {ν : Type} [DecidableEq ν] (le : ν → ν → Bool)
